@@ -36,7 +36,8 @@ func TestProp(t *testing.T) {
 		"parked:joined", "parked:loaded", "parked:write", "aliasing:follower-bytes-taken-after-poison", "multi-key-in-flight",
 		"optype:mutation", "cancel:fired:waiting-for-leader",
 		"slot:leader-gave-up-while-queued-with-followers", "write-fail:leader-with-followers",
-		"deadline:subgraph-leader-expired-with-followers", "opaque:subgraph-leader-aborted-with-followers")
+		"deadline:subgraph-leader-expired-with-followers", "opaque:subgraph-leader-aborted-with-followers",
+		"headers-only-differ:uniform:datasources=2", "headers-only-differ:uniform:datasources=4", "headers-only-differ:rotate:datasources=3")
 	r.Regress(dispatch())
 	r.RunProbes(probes())
 	// the scheduled parts have one or two runnable goroutines at a time; fewer Ps make the
